@@ -80,24 +80,31 @@ def to_symbolic_model(model: Model) -> SymbolicModel:
 
     symbols: dict[str, sympy.Symbol | sympy.Expr] = variables | parameters | data  # type: ignore
 
-    # Insert derived into symbols
-    for k, v in model.get_raw_derived().items():
-        if (
-            expr := fn_to_sympy(v.fn, origin=k, model_args=[symbols[i] for i in v.args])
-        ) is None:
-            msg = f"Unable to parse derived value '{k}'"
-            raise ValueError(msg)
-        symbols[k] = expr
-
-    # Insert derived into reaction via args
+    # Insert derived and reactions into symbols, in the order the model evaluates
+    # them, so that each one only refers to expressions that are already known
+    derived = model.get_raw_derived()
+    reactions = model.get_raw_reactions()
     rxns: dict[str, sympy.Expr] = {}
-    for k, v in model.get_raw_reactions().items():
-        if (
-            expr := fn_to_sympy(v.fn, origin=k, model_args=[symbols[i] for i in v.args])
-        ) is None:
-            msg = f"Unable to parse reaction '{k}'"
-            raise ValueError(msg)
-        rxns[k] = expr
+    for k in cache.order:
+        if (v := derived.get(k)) is not None:
+            if (
+                expr := fn_to_sympy(
+                    v.fn, origin=k, model_args=[symbols[i] for i in v.args]
+                )
+            ) is None:
+                msg = f"Unable to parse derived value '{k}'"
+                raise ValueError(msg)
+            symbols[k] = expr
+        elif (rxn := reactions.get(k)) is not None:
+            if (
+                expr := fn_to_sympy(
+                    rxn.fn, origin=k, model_args=[symbols[i] for i in rxn.args]
+                )
+            ) is None:
+                msg = f"Unable to parse reaction '{k}'"
+                raise ValueError(msg)
+            rxns[k] = expr
+            symbols[k] = expr
 
     # Go through stoichiometries & derived stoichiometries
     eqs: dict[str, sympy.Expr] = {}
